@@ -89,7 +89,7 @@ CLAIMED = {
    tech="Lean 4 proof (induction over segment lists) + differential correspondence", ref="§6 C14, notes/C14.md"),
  "C15": dict(
    text="Lean theorems stating the documented precedence outright over a model of fetch_locale/resolve_locale/init_*context (cookie > Accept-Language match > default; sub-context: cookie > initial > parent > resolution; "
-        "invalid cookie behaves like no cookie) for all inputs; thin theorems — the exhaustive correspondence run (≈146k combinations of cookie × cookie name × enabled × header × {main context, the generated <I18nContextProvider> component with its html-attribute props unset/true/false, resolve_locale* alone and under an already provided context, sub-contexts × parent × initial} on the real ssr code) carries most of the weight.",
+        "invalid cookie behaves like no cookie) for all inputs; thin theorems — the exhaustive correspondence run (≈146k combinations of cookie × cookie name × enabled × header × {main context, the generated <I18nContextProvider> component with its html-attribute props unset/true/false, resolve_locale* alone and under an already provided context, sub-contexts × parent × initial} on the real ssr code) carries most of the weight. C15Feature: with cookies not in use (library built without its `cookie` feature, enable_cookie=false, sub-context without cookie name) no kind of context depends on the jar and nothing is written back; the same cases also run on a harness build of leptos_i18n without the `cookie` feature.",
    note=BASE + "leptos-use's header/cookie readers and q-value handling are oracles; client-side (hydrate/csr) paths are modelled but not executed. See notes/C15.md.",
    tech="Lean 4 proof (decision logic) + exhaustive differential correspondence", ref="§6 C15, notes/C15.md"),
  "C16": dict(
